@@ -487,7 +487,10 @@ fn read_olde_ecl(
         )).ignore();
     }
     if matches!(format.timeline_array_kind(), TimelineArrayKind::Pcb { .. }) {
-        num_timelines -= 1;  // in these games, that last entry points to the end of the file
+        // in these games, that last entry points to the end of the file
+        num_timelines = num_timelines.checked_sub(1).ok_or_else(|| {
+            emitter.emit(error!("timeline table has no entry for the end of the file"))
+        })?;
     }
 
     let subs = sub_offsets.into_iter().enumerate().map(|(index, sub_offset)| {
@@ -1120,7 +1123,10 @@ impl InstrFormat for OldeEclHooks {
             )).ignore();
         }
 
-        let args_blob = f.read_byte_vec(size - self.instr_header_size())?;
+        let args_size = size.checked_sub(self.instr_header_size()).ok_or_else(|| {
+            emitter.as_sized().emit(error!("bad instruction size ({} < {})", size, self.instr_header_size()))
+        })?;
+        let args_blob = f.read_byte_vec(args_size)?;
 
         let instr = RawInstr {
             time, opcode, args_blob,
